@@ -12,7 +12,8 @@ THEOREMS = ["Momtrop.C16.ok_det_nonzero", "Momtrop.C16.zeroDet_of_pivot_product_
             "Momtrop.C16.sample_reports_matrix_error", "Momtrop.C16.sample_ok_stable", "Momtrop.C16.foldl_add_nan", "Momtrop.C16.ok_no_nan"]
 RULE = ("symmetric matrices n=1..6 in classes definite / zero last pivot (exact) / zero middle pivot / indefinite / "
         "NaN-containing / ill-conditioned / underflowing, each with tolerances {none,0,1e-300,1e-12,1e-6,1,inf,NaN}; "
-        "non-trivial when n>=2 and a tolerance is set or the class is not 'definite'; distinct = matrix bits + tolerance")
+        "non-trivial when n>=2 and a tolerance is set or the class is not 'definite'; distinct = matrix bits + tolerance"
+        " Through samples: tolerances at rounding level, debug on vs off, zero-xi points, generic-scalar guard; window probes between the L21 norms of inverse*A-1 and A*inverse-1; exactly singular matrices with irrational pivots; mixed-scale diagonal matrices.")
 ASSUMPTIONS = ["oracle slack for the residual test: rounding of the implementation's own residual evaluation, "
                "4(n+2) eps (sum_j ||(|inv||A|+1)_j||_2 + tol)"]
 
